@@ -130,6 +130,42 @@ pub fn exec_op(ctx: &mut ArrCtx, st6: &mut C06State, st: &mut C16State, verb: &s
         // large enough for data-parallel helpers to split): A reads its half through the sharded extension with a FRESH
         // shard-index cache every time, B reads the other half plainly. Must complete (the supervisor turns a hang into
         // `timeout`) and return the stored data.
+        "shardext_steal" => {
+            // a sharded but not EXCLUSIVELY sharded array (transpose in front), 16 shards, every shard its own task, a concurrency
+            // target that also splits the inner chunks, a store whose inner-chunk reads take a millisecond (so that idle workers
+            // steal): the cached sharded read of the whole array must complete (a hang is reported by the supervisor) and be right
+            use zarrs::array::{Array, ArrayBuilder, ArrayShardedReadableExt, ArrayShardedReadableExtCache, DataType, FillValue};
+            use zarrs::array::codec::array_to_bytes::sharding::ShardingCodecBuilder;
+            use zarrs::storage::{byte_range::ByteRange, Bytes, ReadableStorageTraits, StorageError, StoreKey};
+            struct SlowStore(Arc<zarrs::storage::store::MemoryStore>);
+            impl ReadableStorageTraits for SlowStore {
+                fn get_partial_values_key(&self, key: &StoreKey, r: &[ByteRange]) -> Result<Option<Vec<Bytes>>, StorageError> {
+                    if !matches!(r.first(), Some(ByteRange::Suffix(_))) { std::thread::sleep(std::time::Duration::from_millis(1)); }
+                    self.0.get_partial_values_key(key, r)
+                }
+                fn size_key(&self, key: &StoreKey) -> Result<Option<u64>, StorageError> { self.0.size_key(key) }
+            }
+            let n: usize = m["n"].parse().unwrap();
+            let mem = Arc::new(zarrs::storage::store::MemoryStore::new());
+            let mut b = ArrayBuilder::new(vec![64, 8], DataType::UInt16, vec![4, 8].try_into().unwrap(), FillValue::from(0u16));
+            b.array_to_array_codecs(vec![Arc::new(zarrs::array::codec::TransposeCodec::new(zarrs::array::codec::array_to_array::transpose::TransposeOrder::new(&[1, 0]).unwrap()))]);
+            b.array_to_bytes_codec(Arc::new(ShardingCodecBuilder::new(vec![1, 4].try_into().unwrap()).build()));
+            let w = b.build(mem.clone(), "/").unwrap();
+            w.store_metadata().unwrap();
+            let data: Vec<u16> = (0..64 * 8).map(|i| i as u16 + 1).collect();
+            w.store_array_subset_elements(&w.subset_all(), &data).unwrap();
+            let array = Array::open(Arc::new(SlowStore(mem)), "/").unwrap();
+            let old_ccm = zarrs::config::global_config().chunk_concurrent_minimum();
+            zarrs::config::global_config_mut().set_chunk_concurrent_minimum(16);
+            let mut o = zarrs::array::codec::CodecOptions::default(); o.set_concurrent_target(256);
+            let mut bad = 0;
+            for _ in 0..n {
+                let cache = ArrayShardedReadableExtCache::new(&array);
+                match array.retrieve_array_subset_elements_sharded_opt::<u16>(&cache, &array.subset_all(), &o) { Ok(v) if v == data => {}, _ => bad += 1 }
+            }
+            zarrs::config::global_config_mut().set_chunk_concurrent_minimum(old_ccm);
+            format!("val n={} bad_a={} bad_b=0", n, bad)
+        }
         "shardext_stress" => {
             use zarrs::array::{ArrayBuilder, ArrayShardedReadableExt, ArrayShardedReadableExtCache, DataType, FillValue};
             use zarrs::array::codec::array_to_bytes::sharding::ShardingCodecBuilder;
@@ -138,6 +174,12 @@ pub fn exec_op(ctx: &mut ArrCtx, st6: &mut C06State, st: &mut C16State, verb: &s
             let store = Arc::new(zarrs::storage::store::MemoryStore::new());
             let mut b = ArrayBuilder::new(vec![rows, cols], DataType::UInt8, vec![1, cols].try_into().unwrap(), FillValue::from(0u8));
             b.array_to_bytes_codec(Arc::new(ShardingCodecBuilder::new(vec![1, 1].try_into().unwrap()).build()));
+            // `pre=transpose`: an array->array codec in front of the sharding codec (the array is then sharded but not
+            // EXCLUSIVELY sharded: the extension takes its other branch)
+            if m.get("pre").map(|s| s == "transpose").unwrap_or(false) {
+                b.array_to_array_codecs(vec![Arc::new(zarrs::array::codec::TransposeCodec::new(zarrs::array::codec::array_to_array::transpose::TransposeOrder::new(&[1, 0]).unwrap()))]);
+                b.array_to_bytes_codec(Arc::new(ShardingCodecBuilder::new(vec![1, 1].try_into().unwrap()).build()));
+            }
             let array = Arc::new(b.build(store, "/").unwrap());
             let data: Vec<u8> = (0..rows * cols).map(|i| (i % 251) as u8 + 1).collect();
             array.store_array_subset_elements(&array.subset_all(), &data).unwrap();
@@ -153,7 +195,9 @@ pub fn exec_op(ctx: &mut ArrCtx, st6: &mut C06State, st: &mut C16State, verb: &s
             let mut bad_a = 0;
             for _ in 0..n {
                 let cache = ArrayShardedReadableExtCache::new(&*array);
-                match array.retrieve_array_subset_elements_sharded_opt::<u8>(&cache, &ra, &ctx.opts) { Ok(v) if v == ea => {}, _ => bad_a += 1 }
+                // (the transpose variant always with the default options: the concurrency target of the machine)
+                let o = if m.contains_key("pre") { zarrs::array::codec::CodecOptions::default() } else { ctx.opts.clone() };
+                match array.retrieve_array_subset_elements_sharded_opt::<u8>(&cache, &ra, &o) { Ok(v) if v == ea => {}, _ => bad_a += 1 }
             }
             let bad_b = tb.join().unwrap_or(n);
             zarrs::config::global_config_mut().set_chunk_concurrent_minimum(old_ccm);
@@ -177,7 +221,8 @@ pub fn generate(tier: &str, seed: u64) -> Vec<String> {
     for k in 0..na {
         let cfg = gen_cfg(&mut rng, if k % 2 == 0 { Some(true) } else { None });
         let ct = *rng.pick(&[1u64, 2, 3, 8, 16]);
-        out.push(cfg.cfg_line("c16", "memory", false, false, &format!(" ct={}", ct)));
+        // (a quarter of the cases with the partial-encoding write strategy: it updates shards that the PARALLEL encoder laid out)
+        out.push(cfg.cfg_line("c16", "memory", false, k % 4 == 1, &format!(" ct={}", ct)));
         out.push(format!("c16 op set_ccm v={}", rng.pick(&[1u64, 4])));
         for _ in 0..rng.range(2, 9) { out.push(format!("c16 {}", gen_write_op(&mut rng, &cfg))); if rng.chance(1, 2) { out.push(format!("c16 {}", gen_read_op(&mut rng, &cfg))); } }
         gen_full_reads(&mut rng, &cfg, &mut out, "c16");
@@ -337,6 +382,33 @@ pub fn generate(tier: &str, seed: u64) -> Vec<String> {
     }
     // (e) the shard-index cache under real parallelism (see `shardext_stress`)
     out.push(format!("c16 op shardext_stress n={} rows=32 cols=2048", if thorough { 400 } else { 60 }));
+    out.push(format!("c16 op shardext_stress n={} rows=32 cols=64 pre=transpose", if thorough { 400 } else { 60 }));
+    out.push(format!("c16 op shardext_steal n={}", if thorough { 300 } else { 40 }));
+    // (h) shards laid out by the PARALLEL encoder (inner chunks in completion order), index at the end, then updated through the
+    // partial-encoding write strategy by writes that only REMOVE inner chunks (fill written over whole inner chunks)
+    {
+        let mut rh = Rng::new(seed ^ 0xC16_48);
+        let dts = dtypes();
+        for _ in 0..(if thorough { 60 } else { 8 }) {
+            let dt = dts.iter().find(|d| d.name == "uint16").unwrap().clone();
+            let inner_codecs = if rh.chance(1, 2) { "{\"name\":\"bytes\",\"configuration\":{\"endian\":\"little\"}},{\"name\":\"gzip\",\"configuration\":{\"level\":1}}" } else { "{\"name\":\"bytes\",\"configuration\":{\"endian\":\"little\"}}" };
+            let cfg = Cfg { dtype: dt.clone(), fill: dt.fills[0].clone(), shape: vec![4, 8], grid: vec![(true, vec![4]), (true, vec![8])], regular_impl: true, keys: ("default".into(), "/".into()),
+                codecs_json: format!("[{{\"name\":\"sharding_indexed\",\"configuration\":{{\"chunk_shape\":[1,2],\"codecs\":[{}],\"index_codecs\":[{{\"name\":\"bytes\",\"configuration\":{{\"endian\":\"little\"}}}},{{\"name\":\"crc32c\"}}],\"index_location\":\"end\"}}}}]", inner_codecs),
+                chain_desc: format!("shard[1x2;end;le+crc;bytes-little{}]", if inner_codecs.contains("gzip") { "|gzip" } else { "" }), sharded: true, path: "/par".into(), eff_inner: Some(vec![1, 2]) };
+            out.push(cfg.cfg_line("c16", "memory", false, true, " ct=8"));
+            for _round in 0..3 {
+                let xs: Vec<Vec<u8>> = (0..32).map(|_| { let mut e = rh.bytes(2); if e == cfg.fill.1 { e[0] = 1; } e }).collect();
+                out.push(format!("c16 op store_chunk c=0,0 data={}", show_elems(&xs)));
+                // remove one to three inner chunks, one call each
+                for _ in 0..rh.range(1, 3) {
+                    let (r, c) = (rh.below(4), rh.below(4) * 2);
+                    out.push(format!("c16 op store_array_subset r={},{}+1,2 data={}", r, c, show_elems(&vec![cfg.fill.1.clone(); 2])));
+                    out.push("c16 op retrieve_chunk c=0,0".into());
+                }
+                out.push("c16 op retrieve_array_subset r=0,0+4,8".into());
+            }
+        }
+    }
     // (g) client threads on chunks whose keys share a directory of a filesystem store (free-running; see stress.rs)
     out.push(format!("c16 fsrace rounds={}", if thorough { 3000 } else { 400 }));
     // (f) the concurrency split itself (`concurrency_chunks_and_codec`): stateless `c16 conc` lines, see c16c.rs
